@@ -169,10 +169,24 @@ def run(ck: Check):
         nl = rng.choice([0, 0, 1, 2])
         cases.append({"seed": rng.randrange(1 << 30), "brokers": rng.choice([1, 2, 3]), "partitions": n,
                       "keys": ks, "leaderless": rng.sample(range(n), min(nl, n - 1))})
+    # ... and with a configured key serializer: the serialized key (as found in the log) is what gets hashed,
+    # also when the application's key object is None but its serialized form is not
+    objs = [None, None, "", "a", "user-17", 0, 7, 12345, -1, True, ["x", 1], {"k": "v"}, "ключ", "x" * 40]
+    for i in range(ck.n(6, 40)):
+        n = rng.choice([2, 3, 5, 8, 13, 32])
+        cases.append({"seed": rng.randrange(1 << 30), "brokers": rng.choice([1, 2]), "partitions": n, "ser": "json",
+                      "keys": [rng.choice(objs) for _ in range(ck.n(25, 60))], "leaderless": []})
     e2e = run_impl("c17_e2e_impl.py", {"cases": cases}, timeout=900, env={"AIOKAFKA_NO_EXTENSIONS": "1"})["out"]
     nb = 0
     for c, r in zip(cases, e2e):
-        for key, rep, land in zip(c["keys"], r["reported"], r["landed"]):
+        wk = r.get("wire_keys") or [None] * len(c["keys"])
+        for key0, rep, land, wkey in zip(c["keys"], r["reported"], r["landed"], wk):
+            key = wkey if c.get("ser") else key0
+            if c.get("ser") and wkey is None and land is not None:
+                nb += 1
+                ck.violation("a record sent with a key serializer has no key in the log", {"kind": "e2e-ser", "key": key0},
+                             signature="e2e-serializer-lost-key")
+                continue
             ck.count(key=("e2e", c["seed"], None if key is None else bytes(key)), nontrivial=key is not None)
             if key is not None:
                 want = java_partition(bytes(key), c["partitions"])
